@@ -3,6 +3,7 @@
 
 pub mod ctx;
 pub mod genm;
+pub mod impls;
 pub mod json;
 pub mod oracle;
 pub mod props;
